@@ -2,7 +2,7 @@
 C25 helper lemmas, part 7: order of the POSTs within one tenure.
 -/
 import RqModel.Lemmas.Cdc6
-namespace RqModel.Cdc
+namespace RqModel.CdcPipe
 open RqModel.Fifo
 
 /-- what the steps that feed the pipeline never touch -/
@@ -255,4 +255,4 @@ theorem run_maxIn (s : St) (ops : List Op) : (run s ops).maxIn = max s.maxIn (ma
     rw [ih, stepOp_maxIn]
     cases op <;> simp [maxHwmIn] <;> omega
 
-end RqModel.Cdc
+end RqModel.CdcPipe
